@@ -321,6 +321,7 @@ def check(prop, tier, replay=None):
     # ---- 4: driver
     result = {}
     drv_ok = False
+    died_on = None
     if harness_ok:
         cmd = [os.path.join(BIN, "drive"), prop, "--tier", tier, "--seed", str(seed), "--out", work]
         if replay:
@@ -346,6 +347,13 @@ def check(prop, tier, replay=None):
                 infra_errors.append("driver process died (rc=%s): %s" % (rc, crash))
             else:
                 infra_errors.append("driver failed rc=%s: %s" % (rc, out[-1500:]))
+            # the case the implementation was running when the process died (h.Ctx.Current)
+            cur = os.path.join(work, "current_case.json")
+            if crash and os.path.exists(cur):
+                try:
+                    died_on = json.load(open(cur))
+                except Exception:
+                    died_on = None
 
     # ---- 5: model evaluation on the same cases
     corr = {"cases": 0, "mismatches": {}, "ran": False}
@@ -434,6 +442,16 @@ def check(prop, tier, replay=None):
     for sig, f in by_sig.items():
         violations.append((new_replay({"kind": "failing-input", "sig": sig, "what": f.get("desc"),
                                        "case": f.get("case")}), ""))
+
+    if died_on is not None:
+        died = [e for e in infra_errors if e.startswith("driver process died")]
+        rp = {"kind": "failing-input", "sig": "%s/process-died" % prop,
+              "what": "the process running the implementation died (an unrecovered panic or a fatal runtime error in a goroutine) "
+                      "while executing this case: " + (died[0][:700] if died else ""),
+              "case": died_on.get("case")}
+        if died_on.get("previous"):
+            rp["previous"] = died_on["previous"]
+        violations.append((new_replay(rp), ""))
 
     broken = []
     if proof["broken"] or proof["discharged"] != proof["obligations"] or proof["obligations"] == 0:
